@@ -669,6 +669,14 @@ def _sub(node, env, hook):
                 kws.append(k)
         n2 = ast.Call(func=new.func, args=new.args, keywords=kws)
         new = ast.copy_location(n2, new) if hasattr(new, "lineno") else n2
+    if isinstance(new, ast.Call) and isinstance(new.func, ast.Lambda) and new.func.args.vararg is not None and new.func.args.vararg.arg == "_pargs" \
+            and isinstance(new.func.body, ast.Call) and not new.func.args.args:
+        # application of a functools.partial object (normaliser N21): F(bound..., *args, bound_kw..., **kw)
+        b = new.func.body
+        args = [a for a in b.args if not (isinstance(a, ast.Starred) and dotted(a.value) == "_pargs")] + list(new.args)
+        kws = [k for k in b.keywords if not (k.arg is None and dotted(k.value) == "_pkw")] + list(new.keywords)
+        n2 = ast.Call(func=b.func, args=args, keywords=kws)
+        new = ast.copy_location(n2, new) if hasattr(new, "lineno") else n2
     if isinstance(new, ast.Call):
         fn = new.func
         if isinstance(fn, ast.Lambda) and not new.keywords and len(fn.args.args) == len(new.args) \
